@@ -806,6 +806,14 @@ def oracle_c11_converse(cid, impl, m):
     the model's TypeCheck.blame names (C11_tc_rejects_at: the replaced token; for a traverse target the traversed
     relation's token, which is what the deferred check keeps). Counterparts: a traverse target declared only on
     the traversed type is accepted, one declared only on the enclosing class is rejected."""
+    if impl.get("gen") in ("collide", "collide-declared") and "nerr" in impl and impl.get("hang") != "1" and impl.get("panic") != "1":
+        # documents in which "namespace ++ relation" of a declared relation and of the undeclared reference coincide
+        if impl["gen"] == "collide" and int(impl["nerr"]) == 0:
+            return ("c11-undeclared-accepted", "a reference to an undeclared relation is accepted (the document declares another "
+                                               "namespace/relation pair whose names concatenate to the same string)")
+        if impl["gen"] == "collide-declared" and int(impl["nerr"]) > 0:
+            return ("c11-valid-rejected", f"a document whose references are all declared is rejected: {impl.get('errs')}")
+        return True
     if "mustreject" not in m:
         return None
     if impl.get("hang") == "1" or impl.get("panic") == "1" or "nerr" not in impl:
